@@ -168,7 +168,7 @@ def diffstat_lines(rng, paths):
 
 # ---------------------------------------------------------------- combined diffs / merge conflicts
 
-def gen_combined(rng, conflict=False, nparents=2):
+def gen_combined(rng, conflict=False, nparents=2, nhunks=1):
     """A 'diff --cc' section.  Returns (lines, model) where model is a list of
     ('line', prefix, text) / ('conflict', ours_lines, ancestral_lines, theirs_lines)."""
     path = gen.rand_path(rng, simple=True)
@@ -178,6 +178,20 @@ def gen_combined(rng, conflict=False, nparents=2):
     model = []
     prefixes = [' ' * nparents, '+' + ' ' * (nparents - 1), ' ' * (nparents - 1) + '+', '-' + ' ' * (nparents - 1),
                 ' ' * (nparents - 1) + '-', '+' * nparents, '-' * nparents]
+    def hh(cnt, start=1):
+        return '%s -%d,%d -%d,%d +%d,%d %s' % (at, start, cnt, start, cnt, start, cnt, at) if nparents == 2 else \
+            '%s -%d,%d -%d,%d -%d,%d +%d,%d %s' % (at, start, cnt, start, cnt, start, cnt, start, cnt, at)
+    earlier = []      # complete earlier hunks (reduced context, e.g. git show -U0: a hunk may end in a removed line)
+    for hk in range(nhunks - 1):
+        hb = []
+        for _ in range(rng.randint(1, 5)):
+            p = rng.choice(prefixes)
+            t = gen.rand_text(rng, 40, allow_empty=False, tabs_ok=False)
+            while t.startswith(('=======', '<<<<<<<', '>>>>>>>', '|||||||')):
+                t = gen.rand_text(rng, 40, allow_empty=False, tabs_ok=False)
+            hb.append(p + t)
+            model.append(('line', p, t))
+        earlier += [hh(len(hb), 10 * (hk + 1))] + hb
     n = rng.randint(2, 8)
     for _ in range(n):
         p = rng.choice(prefixes)
@@ -210,10 +224,7 @@ def gen_combined(rng, conflict=False, nparents=2):
                 t = gen.rand_text(rng, 40, allow_empty=False, tabs_ok=False)
             body.append('  ' + t)
             model.append(('line', '  ', t))
-    cnt = len(body)
-    hh = '%s -1,%d -1,%d +1,%d %s' % (at, cnt, cnt, cnt, at) if nparents == 2 else \
-        '%s -1,%d -1,%d -1,%d +1,%d %s' % (at, cnt, cnt, cnt, cnt, at)
-    return head + [hh] + body, model, path
+    return head + earlier + [hh(len(body), 10 * nhunks)] + body, model, path
 
 
 # ---------------------------------------------------------------- git colouring of a diff
